@@ -5,6 +5,7 @@ import ChessVerif.Model.Api
 import ChessVerif.Model.Tracing
 import ChessVerif.Spec.Score
 import ChessVerif.Spec.Sets
+import ChessVerif.Model.BitIter
 import ChessVerif.Spec.Text
 import ChessVerif.Spec.Tracing
 
@@ -197,37 +198,21 @@ def handleTrace : List String → Ans
 
 /-! C18 -/
 /-- `bb iterops <hex> <op>...`: a sequence of operations on ONE `BitBoardIter` (n = `next`, t<k> = `nth(k)`,
-s = `size_hint`); the sequence ends at the first `nth` that returns nothing (what is left then is unspecified).
-Model: the bit tricks (`pop`, PDEP `nth`); specification: the ascending list of members. -/
-def iterOpsModel : List String → BB → List String → List String
-  | [], _, acc => acc.reverse
-  | op :: ops, b, acc =>
-    if op = "n" then
-      match BB.pop b with
-      | some (s, b') => iterOpsModel ops b' (s!"n={s.val}" :: acc)
-      | none => iterOpsModel ops b ("n=none" :: acc)
-    else if op = "s" then iterOpsModel ops b (s!"s={BB.sizeHint b}" :: acc)
-    else match (op.drop 1).toNat? with
-      | some k =>
-        (match BB.nthBmi2 k b with
-         | (some s, rest) => iterOpsModel ops rest (s!"t{k}={s.val}" :: acc)
-         | (none, _) => (s!"t{k}=none" :: acc).reverse)
-      | none => ("bad-op" :: acc).reverse
+s = `size_hint`), run by `BB.runIter` (model: the bit tricks) and by `runIterList` (specification: the ascending list of
+members) of `Model/BitIter.lean`; `Props.C18.runIter_refines` proves them equal for every word and sequence. -/
+def parseBitIterOp (t : String) : Option Chess.IterOp :=
+  if t = "n" then some .next else if t = "s" then some .hint
+  else if t.startsWith "t" then (t.drop 1).toNat?.map .nth else none
 
-def iterOpsSpec : List String → List Sq → List String → List String
-  | [], _, acc => acc.reverse
-  | op :: ops, l, acc =>
-    if op = "n" then
-      match l with
-      | s :: l' => iterOpsSpec ops l' (s!"n={s.val}" :: acc)
-      | [] => iterOpsSpec ops [] ("n=none" :: acc)
-    else if op = "s" then iterOpsSpec ops l (s!"s={l.length}" :: acc)
-    else match (op.drop 1).toNat? with
-      | some k =>
-        (match (l.drop k) with
-         | s :: l' => iterOpsSpec ops l' (s!"t{k}={s.val}" :: acc)
-         | [] => (s!"t{k}=none" :: acc).reverse)
-      | none => ("bad-op" :: acc).reverse
+def showIterOuts (ops : List Chess.IterOp) (outs : List Chess.IterOut) : String :=
+  " ".intercalate ((ops.zip outs).map fun (o, r) =>
+    match o, r with
+    | .next, .sq (some s) => s!"n={s.val}"
+    | .next, .sq none => "n=none"
+    | .nth k, .sq (some s) => s!"t{k}={s.val}"
+    | .nth k, .sq none => s!"t{k}=none"
+    | .hint, .size n => s!"s={n}"
+    | _, _ => "?")
 
 open Spec in
 def handleBB (args : List String) : Ans :=
@@ -236,9 +221,9 @@ def handleBB (args : List String) : Ans :=
   | "fromsqs" :: rest => match rest.mapM sqIdx? with
     | some l => (showBB (BB.ofList l), sb (SqSet.ofList l))
     | none => bad
-  | "iterops" :: a :: ops => match parseBB a with
-    | some a => (" ".intercalate (iterOpsModel ops a []), " ".intercalate (iterOpsSpec ops (SqSet.members (setOf a)) []))
-    | none => bad
+  | "iterops" :: a :: ops => match parseBB a, ops.mapM parseBitIterOp with
+    | some a, some ops => (showIterOuts ops (BB.runIter true ops a), showIterOuts ops (runIterList ops (BB.toList a)))
+    | _, _ => bad
   | "frombbs" :: rest => match rest.mapM parseBB with
     | some l => (showBB (BB.unionList l), sb (fun t => l.any (fun b => setOf b t)))
     | none => bad
